@@ -1,3 +1,4 @@
+from rtamt.semantics.arithmetic import saturating
 import math
 from rtamt.semantics.abstract_online_operation import AbstractOnlineOperation
 
@@ -10,5 +11,5 @@ class PowOperation(AbstractOnlineOperation):
         pass
 
     def update(self, sample_left, sample_right):
-        sample_result = math.pow(sample_left, sample_right)
+        sample_result = saturating.power(sample_left, sample_right)
         return sample_result
